@@ -2,8 +2,8 @@ package main
 
 import (
 	"fmt"
-	"sort"
 	"os"
+	"sort"
 	"time"
 
 	"verif/harness/mon"
